@@ -468,7 +468,14 @@ class IH5AttributeManager(IH5InnerNode):
             self._files[-1].create_group(self._gpath)
         # deletion marker at `key` (if set) is overwritten automatically here
         # so no need to worry about removing it before assigning `val`
-        self._files[-1][self._gpath].attrs[key] = val
+        attrs = self._files[-1][self._gpath].attrs
+        was_deleted = key in attrs and _is_del_mark(attrs[key])
+        try:
+            attrs[key] = val
+        except Exception:
+            if was_deleted and key not in attrs:
+                attrs[key] = DEL_VALUE  # h5py removed the marker before it failed
+            raise
 
     def __delitem__(self, key: str):
         self._guard_open()
@@ -607,6 +614,12 @@ class IH5Group(IH5InnerNode):
             if isinstance(prev_val, (IH5Group, IH5Dataset)):
                 raise ValueError("Path exists, in order to replace - delete first!")
 
+        # create the dataset first (still without a name), so that nothing is
+        # changed in the container if the passed value or arguments are refused
+        new_ds = self._files[-1].create_dataset(
+            None, shape=shape, dtype=dtype, data=data, **kwargs
+        )
+
         if path in self._files[-1] and _node_is_del_mark(
             self._get_child_raw(path, self._last_idx)
         ):
@@ -618,9 +631,7 @@ class IH5Group(IH5InnerNode):
             assert path in self._files[-1]
             del self._files[-1][path]
 
-        self._files[-1].create_dataset(  # actually create it, finally
-            path, shape=shape, dtype=dtype, data=data, **kwargs
-        )
+        self._files[-1][path] = new_ds  # actually link it at its path, finally
         return IH5Dataset(self._record, path, self._last_idx)
 
     def require_group(self, name: str) -> IH5Group:
